@@ -128,7 +128,7 @@ func (r *Run) Violate(v Violation) {
 	defer r.mu.Unlock()
 	cur, _ := r.Cov["violating_cases"].(int64)
 	r.Cov["violating_cases"] = cur + 1
-	if len(r.violations) < 20 {
+	if len(r.violations) < 2000 {
 		r.violations = append(r.violations, v)
 	}
 }
@@ -183,7 +183,7 @@ func (r *Run) Finish() int {
 	out := map[string]any{
 		"property_id": r.ID, "tier": r.Tier, "seed": r.Seed, "level": r.Level,
 		"coverage": r.Cov, "assumptions": r.Assumptions, "wall_s": float64(int(wall*1000)) / 1000,
-		"violations": len(r.violations),
+		"violations": min(len(r.violations), 20),
 	}
 	if r.Assumptions == nil {
 		out["assumptions"] = []string{}
@@ -212,6 +212,12 @@ func (r *Run) Finish() int {
 		return 2
 	}
 	if len(r.violations) > 0 {
+		// the simplest counterexamples first (shortest case description), at most 20 artefacts
+		size := func(v Violation) int { b, _ := json.Marshal(v.Case); return len(b) }
+		sort.SliceStable(r.violations, func(i, j int) bool { return size(r.violations[i]) < size(r.violations[j]) })
+		if len(r.violations) > 20 {
+			r.violations = r.violations[:20]
+		}
 		_ = os.MkdirAll(filepath.Join(root, "replays"), 0o755)
 		for i, v := range r.violations {
 			p := filepath.Join(root, "replays", fmt.Sprintf("%s-%d.json", r.ID, i+1))
